@@ -1,17 +1,6 @@
 #!/bin/bash
-# Build the framework from files on disk only (offline): Coq development, extracted model
-# runner, Go harness.  Safe to re-run.
-set -u
+# Build the framework from files on disk only (offline): Go harness modules (with the verif
+# overlay), regenerated constants, the Coq development, the extracted model runner.  Safe to re-run.
 cd "$(dirname "$0")"
-export GOFLAGS=-mod=mod GOPROXY=off GOSUMDB=off GOTOOLCHAIN=local CGO_ENABLED=0
 mkdir -p work evidence replays
-rc=0
-( cd harness && cp /repo/go.sum go.sum && go build -o afcheck ./cmd/afcheck ) || rc=1
-[ -x harness/afcheck ] && harness/afcheck consts -repo /repo -out coq/Gen/Consts.v || rc=1
-tools/mkcoqproject.sh
-( cd coq && timeout 3000 make -k -j16 2>&1 | tail -40 ) || rc=1
-ocaml/build.sh || rc=1
-for m in harness-gcs harness-sftp; do
-  if [ -d "$m" ]; then ( cd "$m" && ./build.sh ) || rc=1; fi
-done
-exit $rc
+exec ./check build
